@@ -34,8 +34,18 @@ F  == Traces[tid].init.fam
 C  == Traces[tid].init.c
 FE == Traces[tid].init.fe
 
-NoMem == [rows |-> <<>>, cands |-> {}, keep |-> <<>>, dirt |-> ""]
-TInit == tid \in 1..NTraces /\ l = 1 /\ verdict = "ok" /\ mem = NoMem
+\* (the messages of the case are derived ONCE per trace, in the initial state: operators that depend on tid are
+\* re-evaluated by TLC at every use)
+Derived(t) ==
+    LET f == Traces[t].init.fam
+        cc == Traces[t].init.c
+    IN IF f \in {"folder", "num"}
+       THEN LET ms == MsgsOf(cc.fl, CaseStore(f, cc)) IN
+            [canon |-> [a \in 1..Len(ms) |-> Canon(ms[a])], names |-> [a \in 1..Len(ms) |-> NameAlts(ms[a])],
+             served |-> [a \in 1..Len(ms) |-> Served(ms[a])]]
+       ELSE [canon |-> <<>>, names |-> <<>>, served |-> <<>>]
+TInit == tid \in 1..NTraces /\ l = 1 /\ verdict = "ok"
+         /\ mem = [rows |-> <<>>, cands |-> {}, keep |-> <<>>, dirt |-> "", d |-> Derived(tid)]
 
 Drift(cond, what) == IF cond THEN TRUE ELSE RecordDrift(tid, l, what)
 RowFor(rows, sel) == LET js == {j \in 1..Len(rows) : rows[j].sel = sel} IN IF js = {} THEN 0 ELSE CHOOSE j \in js : TRUE
@@ -45,11 +55,10 @@ PlainType(e) == e.ctype \in {"", "text/plain"}
 
 (* ---- folder ---------------------------------------------------------------------------- *)
 Fl    == IF F \in {"folder", "fronts", "num"} THEN C.fl ELSE "maildir"
-St    == CaseStore(F, C)
-FMsgs == MsgsOf(Fl, St)
-FN    == Len(FMsgs)
+FN    == Len(mem.d.canon)
 Cands0 == IF Fl = "mbox" THEN {Idx(FN)} ELSE Perms(FN)
-NamesFit(rows, msgs, p) == \A k \in 1..Len(rows) : rows[k].name \in NameAlts(msgs[p[k]])
+FitsOne(name, alts) == \E a \in alts : SameName(name, a)
+NamesFit(rows, names, p) == \A k \in 1..Len(rows) : FitsOne(rows[k].name, names[p[k]])
 DesignPerms == IF Fl = "mbox" THEN {Idx(FN)} ELSE DesignOrders(FN, C.place, C.ord)
 
 DirJudge(e) ==
@@ -67,22 +76,22 @@ ListJudge(e) ==
      ELSE IF ~(Len(rows) = FN) THEN "OneEntryPerMessage"
      ELSE IF ~(Len(Ev) = FolderLen(FN)) THEN "Incomplete"
      ELSE IF ~(\A k \in 1..FN : rows[k].sel = MsgSel(Fl, "|", NatStr(k)) /\ rows[k].t \in {"0", ""}) THEN "SelectorsNumbered"
-     ELSE IF {p \in Cands0 : NamesFit(rows, FMsgs, p)} = {}
-          THEN (IF Fl = "mbox" /\ FN <= 4 /\ \E p \in Perms(FN) : NamesFit(rows, FMsgs, p) THEN "StoreOrder" ELSE "NamedBySubject")
+     ELSE IF {p \in Cands0 : NamesFit(rows, mem.d.names, p)} = {}
+          THEN (IF Fl = "mbox" /\ FN <= 4 /\ \E p \in Perms(FN) : NamesFit(rows, mem.d.names, p) THEN "StoreOrder" ELSE "NamedBySubject")
      ELSE "ok")
 ListDrift(e) ==
-    Drift(\E p \in DesignPerms : \A k \in 1..FN : e.rows[k].name = NameOf(Parse(FMsgs[p[k]])), "names / order differ from the coded (or sorted) listing")
+    Drift(\E p \in DesignPerms : \A k \in 1..FN : e.rows[k].name \in mem.d.names[p[k]], "names / order differ from the coded (or sorted) listing")
 GetJudge(e) ==
     LET k == e.k IN
     (IF ~(k \in 1..Len(mem.rows) /\ k = l - 2 /\ e.fe = FE) THEN "ClientMismatch"
      ELSE IF ~(e.sel = mem.rows[k].sel) THEN "ClientMismatch"
      ELSE IF ~(e.escaped = "") THEN "NoEscape"
      ELSE IF ~(e.cls = "ok") THEN "RetrieveNth"
-     ELSE IF {p \in mem.cands : Canon(e.lines) = Canon(FMsgs[p[k]])} = {} THEN "RetrieveNth"
-     ELSE IF ~(mem.rows[k].name \in NameAlts(e.lines)) THEN "ListingMatchesRetrieval"
+     ELSE IF {p \in mem.cands : Canon(e.lines) = mem.d.canon[p[k]]} = {} THEN "RetrieveNth"
+     ELSE IF ~NameFits(mem.rows[k].name, e.lines) THEN "ListingMatchesRetrieval"
      ELSE "ok")
 GetDrift(e) ==
-    /\ Drift(\E p \in DesignPerms \cap mem.cands : e.lines = Served(FMsgs[p[e.k]]), "served bytes differ from Served(message)")
+    /\ Drift(\E p \in DesignPerms \cap mem.cands : e.lines = mem.d.served[p[e.k]], "served bytes differ from Served(message)")
     /\ Drift(PlainType(e), "message not announced as text/plain")
 InfoJudge(e) ==
     LET k == e.k IN
@@ -107,39 +116,46 @@ FrontsJudge(e) ==
      ELSE IF l > 1 /\ ~SameRows(e.rows, mem.rows) THEN "FrontEndsAgree"
      ELSE "ok")
 
-(* ---- order ----------------------------------------------------------------------------- *)
+(* ---- order / flav: two phases, each = one listing and the items it showed, followed ------ *)
+\* phase 2 starts after the items of the first listing (mem.rows, set at event 1)
+N1 == Len(mem.rows)
+Second == l > 1 + N1
+PhaseK == IF Second THEN l - (1 + N1) - 1 ELSE l - 1          \* 0 = the list event of the phase
+Numbered(rows, fl) == \A k \in 1..Len(rows) : rows[k].sel = MsgSel(fl, "|", NatStr(k)) /\ rows[k].t = "0"
+PhaseShape(e) ==            \* the trace has the events its listings call for
+    IF PhaseK > 0 THEN TRUE
+    ELSE IF ~Second THEN Len(Ev) >= 2 + Len(e.rows) ELSE Len(Ev) = l + Len(e.rows)
 ON == Len(C.store)
 OrderJudge(e) ==
-    LET second == l > ON + 1
-        k == IF second THEN l - (ON + 1) - 1 ELSE l - 1       \* 0 = the list event of the phase
-    IN (IF ~(Len(Ev) = 2 * (ON + 1)) THEN "Incomplete"
-        ELSE IF ~(e.ord = (IF second THEN C.b ELSE C.a) /\ e.ev = (IF k = 0 THEN "list" ELSE "get")) THEN "ClientMismatch"
-        ELSE IF ~(e.escaped = "") THEN "NoEscape"
-        ELSE IF k = 0 /\ ~(e.sel = FolderSel("maildir")) THEN "ClientMismatch"
-        ELSE IF k = 0 /\ ~(e.cls = "ok") THEN "ListingAnswered"
-        ELSE IF k = 0 /\ ~second /\ ~(Len(e.rows) = ON) THEN "OneEntryPerMessage"
-        ELSE IF k = 0 /\ second /\ ~(e.rows = mem.rows) THEN "NumberingOrderIndependent"
-        ELSE IF k > 0 /\ ~(e.k = k /\ e.sel = mem.rows[k].sel) THEN "ClientMismatch"
-        ELSE IF k > 0 /\ ~(e.cls = "ok") THEN "RetrieveNth"
-        ELSE IF k > 0 /\ second /\ ~(e.lines = mem.keep[k]) THEN "NumberingOrderIndependent"
-        ELSE "ok")
+    LET k == PhaseK IN
+    (IF ~(e.ord = (IF Second THEN C.b ELSE C.a) /\ e.ev = (IF k = 0 THEN "list" ELSE "get")) THEN "ClientMismatch"
+     ELSE IF ~(e.escaped = "") THEN "NoEscape"
+     ELSE IF k = 0 /\ ~(e.sel = FolderSel("maildir")) THEN "ClientMismatch"
+     ELSE IF k = 0 /\ ~(e.cls = "ok") THEN "ListingAnswered"
+     ELSE IF k = 0 /\ ~(Len(e.rows) = ON) THEN "OneEntryPerMessage"
+     ELSE IF k = 0 /\ ~Numbered(e.rows, "maildir") THEN "SelectorsNumbered"
+     ELSE IF ~PhaseShape(e) THEN "Incomplete"
+     ELSE IF k = 0 /\ Second /\ ~(e.rows = mem.rows) THEN "NumberingOrderIndependent"
+     ELSE IF k > 0 /\ ~(e.k = k /\ e.sel = mem.rows[k].sel) THEN "ClientMismatch"
+     ELSE IF k > 0 /\ ~(e.cls = "ok") THEN "RetrieveNth"
+     ELSE IF k > 0 /\ Second /\ ~(e.lines = mem.keep[k]) THEN "NumberingOrderIndependent"
+     ELSE "ok")
 
-(* ---- flav ------------------------------------------------------------------------------ *)
 VN == Len(C.store)
 FlavJudge(e) ==
-    LET second == l > VN + 1
-        k == IF second THEN l - (VN + 1) - 1 ELSE l - 1
-        fl == IF second THEN "maildir" ELSE "mbox"
-    IN (IF ~(Len(Ev) = 2 * (VN + 1)) THEN "Incomplete"
-        ELSE IF ~(e.fl = fl /\ e.ev = (IF k = 0 THEN "list" ELSE "get")) THEN "ClientMismatch"
+    LET k == PhaseK
+        fl == IF Second THEN "maildir" ELSE "mbox"
+    IN (IF ~(e.fl = fl /\ e.ev = (IF k = 0 THEN "list" ELSE "get")) THEN "ClientMismatch"
         ELSE IF ~(e.escaped = "") THEN "NoEscape"
         ELSE IF k = 0 /\ ~(e.sel = FolderSel(fl)) THEN "ClientMismatch"
         ELSE IF k = 0 /\ ~(e.cls = "ok") THEN "ListingAnswered"
         ELSE IF k = 0 /\ ~(Len(e.rows) = VN) THEN "OneEntryPerMessage"
-        ELSE IF k = 0 /\ second /\ {p \in Perms(VN) : \A j \in 1..VN : e.rows[j].name = mem.rows[p[j]].name} = {} THEN "FlavoursAgree"
+        ELSE IF k = 0 /\ ~Numbered(e.rows, fl) THEN "SelectorsNumbered"
+        ELSE IF ~PhaseShape(e) THEN "Incomplete"
+        ELSE IF k = 0 /\ Second /\ {p \in Perms(VN) : \A j \in 1..VN : e.rows[j].name = mem.rows[p[j]].name} = {} THEN "FlavoursAgree"
         ELSE IF k > 0 /\ ~(e.k = k /\ e.sel = MsgSel(fl, "|", NatStr(k))) THEN "ClientMismatch"
         ELSE IF k > 0 /\ ~(e.cls = "ok") THEN "RetrieveNth"
-        ELSE IF k > 0 /\ second /\ {p \in mem.cands : Canon(e.lines) = Canon(mem.keep[p[k]])} = {} THEN "FlavoursAgree"
+        ELSE IF k > 0 /\ Second /\ {p \in mem.cands : Canon(e.lines) = Canon(mem.keep[p[k]])} = {} THEN "FlavoursAgree"
         ELSE "ok")
 
 (* ---- num ------------------------------------------------------------------------------- *)
@@ -149,11 +165,11 @@ NumJudge(e) ==
      ELSE IF ~(e.escaped = "") THEN "NoEscape"
      ELSE IF o = 0 /\ ~(e.cls = "err") THEN "NoSuchMessage"
      ELSE IF o > 0 /\ C.num = "lead0" /\ e.cls = "err" THEN "ok"
-     ELSE IF o > 0 /\ ~(e.cls = "ok" /\ Canon(e.lines) = Canon(FMsgs[o])) THEN "RetrieveNth"
+     ELSE IF o > 0 /\ ~(e.cls = "ok" /\ Canon(e.lines) = mem.d.canon[o]) THEN "RetrieveNth"
      ELSE "ok")
 NumDrift(e) ==
     LET o == IF C.cross THEN 0 ELSE NumOutcome(NumText(C.num, C.n), C.n) IN
-    Drift(o > 0 => (e.cls = "ok" /\ e.lines = Served(FMsgs[o])), "message selector answer differs from Served(message)")
+    Drift(o > 0 => (e.cls = "ok" /\ e.lines = mem.d.served[o]), "message selector answer differs from Served(message)")
 
 (* ---- recog ----------------------------------------------------------------------------- *)
 RSel == IF C.kind = "file" THEN FolderSel("mbox") ELSE FolderSel("maildir")
@@ -171,6 +187,7 @@ RecogDirJudge(e) ==
 RawJudge(e) ==
     (IF ~(e.sel = RSel) THEN "ClientMismatch"
      ELSE IF ~(e.escaped = "") THEN "NoEscape"
+     ELSE IF C.kind = "file" /\ IsMboxFile(RLines) /\ mem.dirt = "1" /\ ~(e.cls = "ok") THEN "ListingAnswered"
      ELSE IF C.kind = "file" /\ C.shape = "std" /\ ~MailboxReply(e, "mbox", ReadMbox(RLines)) THEN "Recognition"
      ELSE IF C.kind = "file" /\ C.shape \in {"empty", "prose"} /\ ~FileReply(e) THEN "Recognition"
      ELSE IF C.kind = "dir" /\ C.shape = "full" /\ ~MailboxReply(e, "maildir", DirMsg) THEN "Recognition"
@@ -219,15 +236,15 @@ DriftEv(e) ==
       [] OTHER -> TRUE
 \* what later events need from this one
 Remember(e) ==
-    CASE F = "folder" /\ e.ev = "list" -> [mem EXCEPT !.rows = e.rows, !.cands = {p \in Cands0 : NamesFit(e.rows, FMsgs, p)}]
-      [] F = "folder" /\ e.ev = "get" -> [mem EXCEPT !.cands = {p \in mem.cands : Canon(e.lines) = Canon(FMsgs[p[e.k]])}]
+    CASE F = "folder" /\ e.ev = "list" -> [mem EXCEPT !.rows = e.rows, !.cands = {p \in Cands0 : NamesFit(e.rows, mem.d.names, p)}]
+      [] F = "folder" /\ e.ev = "get" -> [mem EXCEPT !.cands = {p \in mem.cands : Canon(e.lines) = mem.d.canon[p[e.k]]}]
       [] F = "fronts" /\ l = 1 -> [mem EXCEPT !.rows = e.rows]
       [] F = "order" /\ e.ev = "list" /\ l = 1 -> [mem EXCEPT !.rows = e.rows]
-      [] F = "order" /\ e.ev = "get" /\ l <= ON + 1 -> [mem EXCEPT !.keep = Append(mem.keep, e.lines)]
+      [] F = "order" /\ e.ev = "get" /\ ~Second -> [mem EXCEPT !.keep = Append(mem.keep, e.lines)]
       [] F = "flav" /\ e.ev = "list" /\ l = 1 -> [mem EXCEPT !.rows = e.rows]
-      [] F = "flav" /\ e.ev = "get" /\ l <= VN + 1 -> [mem EXCEPT !.keep = Append(mem.keep, e.lines)]
+      [] F = "flav" /\ e.ev = "get" /\ ~Second -> [mem EXCEPT !.keep = Append(mem.keep, e.lines)]
       [] F = "flav" /\ e.ev = "list" /\ l > 1 -> [mem EXCEPT !.cands = {p \in Perms(VN) : \A j \in 1..VN : e.rows[j].name = mem.rows[p[j]].name}]
-      [] F = "flav" /\ e.ev = "get" /\ l > VN + 1 -> [mem EXCEPT !.cands = {p \in mem.cands : Canon(e.lines) = Canon(mem.keep[p[e.k]])}]
+      [] F = "flav" /\ e.ev = "get" /\ Second -> [mem EXCEPT !.cands = {p \in mem.cands : Canon(e.lines) = Canon(mem.keep[p[e.k]])}]
       [] F = "recog" /\ e.ev = "dir" -> [mem EXCEPT !.dirt = (LET j == RowFor(e.rows, RSel) IN IF j = 0 THEN "" ELSE e.rows[j].t)]
       [] OTHER -> mem
 Consume ==
